@@ -45,6 +45,23 @@ Theorem C03_null_refused : forall cols r v c,
   p_write_col true cols r v = None.
 Proof. exact write_col_refuses_null. Qed.
 
+(* ... and the other shape violations, at the level of the monadic RowWriter model: the call returns
+   InvalidData and the connection state is untouched -- nothing malformed is emitted *)
+From MsqlVerif Require Import Model.Resultset Proofs.ShapeRefused.
+Theorem C03_end_row_wrong_count_refused : forall w s,
+  r_cols w <> [] -> r_col w <> length (r_cols w) ->
+  end_row w s = (ROk (w, Some EInvalidData), s).
+Proof. exact end_row_wrong_count_refused. Qed.
+Theorem C03_surplus_cell_refused_bin : forall w v s,
+  r_cols w <> [] -> q_bin (r_q w) = true -> (0 < r_col w)%nat -> (length (r_cols w) <= r_col w)%nat ->
+  write_col w v s = (ROk (w, Some EInvalidData), s).
+Proof. exact write_col_surplus_refused_bin. Qed.
+Theorem C03_write_row_wrong_count_refused : forall w vs w' s s',
+  r_cols w <> [] ->
+  write_cols w vs s = (ROk (w', None), s') -> r_cols w' = r_cols w -> r_col w' <> length (r_cols w) ->
+  write_row w vs s = (ROk (w', Some EInvalidData), s').
+Proof. exact write_row_wrong_count_refused. Qed.
+
 (* non-vacuity: a two-resultset chain with NULLs, a completion and a zero-column resultset *)
 Example C03_example :
   let c1 := {| c_table := [x74]; c_name := [x61]; c_type := 3; c_flags := 0 |} in
